@@ -2,6 +2,8 @@ import TaskctlVerif.Model.Graph
 import TaskctlVerif.Model.Sched
 import TaskctlVerif.Model.Runner
 import TaskctlVerif.Model.Cli
+import TaskctlVerif.Model.Cancel
+import TaskctlVerif.Model.CtxHooks
 /-!
 Line-protocol oracle: one case per line on stdin (`<family> <payload>`), one observation per line on
 stdout.  Compiled from exactly the definitions the theorems are about (core Lean only).
@@ -116,6 +118,42 @@ def cliCase (line : String) : String :=
     s!"ran={",".intercalate ran}|exit={r.2}"
   | _ => "bad-op"
 
+/-! ### cancellation scenarios -/
+
+/-- `cancel inflight=2 twice=1`: k runs with 2 commands each are inside their first command, Cancel is
+called, the commands are interrupted, Cancel returns, a late run is attempted (and a second Cancel) -/
+def cancelCase (fields : List String) : String :=
+  let k := (kv fields "inflight").toNat?.getD 0
+  let twice := kv fields "twice" = "1"
+  let ids := List.range k
+  let acts : List Cancel.Act :=
+    ids.map (fun i => .enter i 2) ++ ids.map (fun i => .startCmd i) ++ [.cancelCall 0] ++
+    ids.map (fun i => .endCmd i false) ++ [.cancelRet 0, .enter k 1, .startCmd k] ++
+    (if twice then [.cancelCall 1, .cancelRet 1] else [])
+  let σ := Cancel.run Cancel.init acts
+  let before := (Cancel.run Cancel.init (ids.map (fun i => .enter i 2) ++ ids.map (fun i => .startCmd i))).started.length
+  let errs := ids.map fun i => match σ.phase i with | .done true => "1" | _ => "0"
+  let late := match σ.phase k with | .done true => "1" | _ => "0"
+  s!"cret={b2s (σ.cret 0)}|errs={",".intercalate errs}|late_err={late}|started_after={σ.started.length - before}|cret2={b2s (!twice || σ.cret 1)}"
+
+/-! ### execution-context hooks -/
+
+/-- `hooks ctx=0,0,1 upfail=01`: runs 0.. with their context, per-context `up` outcome; the model runs
+the canonical sequential schedule and reports per-context hook counts -/
+def hooksCase (fields : List String) : String :=
+  let ctxL := natList (kv fields "ctx") ","
+  let upf := (kv fields "upfail").toList.map (· == '1')
+  let cfg : Hooks.Cfg := { n := ctxL.length, ctxOf := fun r => ctxL.getD r 0, upFails := fun c => upf.getD c false }
+  let ncx := upf.length
+  let σ := Hooks.run cfg Hooks.init (Hooks.sequential cfg ncx)
+  let cnt (p : Hooks.Tok → Bool) : Nat := (σ.log.filter p).length
+  "|".intercalate ((List.range ncx).map fun c =>
+    let up := cnt (fun t => match t with | .up c' => c' == c | _ => false)
+    let bf := cnt (fun t => match t with | .before c' _ => c' == c | _ => false)
+    let af := cnt (fun t => match t with | .after c' _ => c' == c | _ => false)
+    let dn := cnt (fun t => match t with | .down c' => c' == c | _ => false)
+    s!"c{c}:up={up},before={bf},after={af},down={dn}")
+
 def handle (line : String) : String :=
   let line := line.trimAscii.toString
   match line.splitOn " " with
@@ -123,6 +161,8 @@ def handle (line : String) : String :=
   | "sched" :: rest => schedCase rest
   | "runner" :: rest => runnerCase rest
   | "cli" :: _ => cliCase line
+  | "cancel" :: rest => cancelCase rest
+  | "hooks" :: rest => hooksCase rest
   | _ => "bad-op"
 
 partial def loop (h : IO.FS.Stream) (out : IO.FS.Stream) : IO Unit := do
